@@ -135,7 +135,21 @@ pub fn check_pair(
 ) -> Result<PairResult, (String, Value)> {
     let our_state = to_state(me, ours);
     let their_state = to_state(peer, theirs);
-    let needs: HashMap<ActorId, Vec<SyncNeedV1>> = our_state.compute_available_needs(&their_state);
+    // a panic on a well-formed pair is an observation (no request is produced at all)
+    let needs: HashMap<ActorId, Vec<SyncNeedV1>> = match std::panic::catch_unwind(std::panic::AssertUnwindSafe(|| our_state.compute_available_needs(&their_state))) {
+        Ok(n) => n,
+        Err(p) => {
+            let msg = p.downcast_ref::<String>().cloned().or_else(|| p.downcast_ref::<&str>().map(|s| s.to_string())).unwrap_or_else(|| "<non-string panic>".into());
+            return Err((
+                "completeness/compute_available_needs-panics-on-well-formed-states".into(),
+                json!({
+                    "panic": msg,
+                    "ours": ours.iter().map(|(a, s)| (a.to_string(), render_side(s))).collect::<BTreeMap<_, _>>(),
+                    "theirs": theirs.iter().map(|(a, s)| (a.to_string(), render_side(s))).collect::<BTreeMap<_, _>>(),
+                }),
+            ));
+        }
+    };
 
     let render = |needs: &HashMap<ActorId, Vec<SyncNeedV1>>| {
         json!({
@@ -416,6 +430,7 @@ fn eval(
 }
 
 fn run(ctx: &mut Ctx) {
+    std::panic::set_hook(Box::new(|_| {}));
     let mut rng = ctx.rng(4);
     let me = aid(1);
     let peer = aid(2);
